@@ -580,6 +580,9 @@ func (o *Origins) newHelperResult(c *ssa.Call, d *CallDesc, idx int) *Ex {
 	}
 	o.p.expanding[callee] = true
 	defer delete(o.p.expanding, callee)
+	if e := o.searchHelperResult(c, callee); e != nil {
+		return e
+	}
 	oc := o.Enter(callee, c)
 	var rets []*ssa.Return
 	if res.Len() > 0 && IsErrorType(res.At(res.Len()-1).Type()) {
@@ -598,6 +601,117 @@ func (o *Origins) newHelperResult(c *ssa.Call, d *CallDesc, idx int) *Ex {
 		alts = append(alts, oc.Of(r.Results[i]))
 	}
 	return mkPhi(alts)
+}
+
+// searchHelperResult: a new helper of the shape
+//
+//	func find(list []T, key ...) int { for i := range list { if P(list[i], key) { return i } }; return -1 }
+//
+// is the hand-written form of slices.IndexFunc(list, func(x T) bool { return P(x, key) }). Its result is
+// given the same canonical expression, slices.IndexFunc(<list>, pred:(P)) with P in the caller's terms
+// (the element printed as elem(<list>)), so that rules about "the first row that matches" see one idiom.
+func (o *Origins) searchHelperResult(c *ssa.Call, callee *ssa.Function) *Ex {
+	res := callee.Signature.Results()
+	if res.Len() != 1 {
+		return nil
+	}
+	if b, ok := res.At(0).Type().Underlying().(*types.Basic); !ok || b.Kind() != types.Int {
+		return nil
+	}
+	oc := o.Enter(callee, c)
+	var loop *Loop
+	var pred *Ex
+	nMinus := 0
+	for _, r := range Returns(callee) {
+		v := r.Results[0]
+		if k, ok := constInt(v); ok {
+			if k != -1 {
+				return nil
+			}
+			nMinus++
+			continue
+		}
+		l := oc.Loops.byIndex[v]
+		if l == nil || l.RangeOf == nil || (loop != nil && loop != l) {
+			return nil
+		}
+		if _, isParam := l.RangeOf.(*ssa.Parameter); !isParam {
+			return nil
+		}
+		loop = l
+		// the return block is entered from the loop body through exactly one conditional edge
+		b := r.Block()
+		if len(b.Preds) != 1 {
+			return nil
+		}
+		p := b.Preds[0]
+		idx := -1
+		for i, s := range p.Succs {
+			if s == b {
+				idx = i
+			}
+		}
+		f := oc.EdgeFact(Edge{p, idx})
+		if f == nil || pred != nil {
+			return nil
+		}
+		switch f.Kind {
+		case "cmp":
+			op := f.Op.String()
+			if !f.Pos {
+				switch op {
+				case "==":
+					op = "!="
+				case "!=":
+					op = "=="
+				default:
+					return nil
+				}
+			}
+			pred = mk("bin", op, f.A, f.B)
+		case "bool":
+			if !f.Pos {
+				return nil
+			}
+			pred = f.A
+		default:
+			return nil
+		}
+	}
+	if loop == nil || pred == nil || nMinus == 0 {
+		return nil
+	}
+	list := oc.Of(loop.RangeOf)
+	return &Ex{K: "call", S: "slices.IndexFunc", Args: []*Ex{list, mk("pred", "", pred)}, Call: c, Idx: -1, V: c}
+}
+
+// SearchList returns the SSA value of the list searched by a (real or canonicalised) IndexFunc expression.
+func (o *Origins) SearchList(e *Ex) ssa.Value {
+	if e == nil || e.K != "call" || e.Call == nil || !strings.HasSuffix(e.S, "slices.IndexFunc") {
+		return nil
+	}
+	cc := e.Call.Common()
+	callee := cc.StaticCallee()
+	if callee != nil && o.p.IsNewFunc(callee) && callee.Blocks != nil {
+		// canonicalised helper: the argument bound to the parameter the helper ranges over
+		oc := o.p.OriginsOf(callee)
+		for _, r := range Returns(callee) {
+			if l := oc.Loops.byIndex[r.Results[0]]; l != nil {
+				if prm, ok := l.RangeOf.(*ssa.Parameter); ok {
+					for i, p2 := range callee.Params {
+						if p2 == prm && i < len(cc.Args) {
+							return cc.Args[i]
+						}
+					}
+				}
+			}
+		}
+		return nil
+	}
+	if len(cc.Args) >= 1 {
+		return cc.Args[0]
+	}
+	return nil
 }
 
 // builderContent models a local strings.Builder / bytes.Buffer as the concatenation it holds when read:
@@ -1027,7 +1141,7 @@ func (o *Origins) reaching(root ssa.Value, path []pathElem, at ssa.Instruction, 
 		val  *Ex
 	}
 	var sources []*Ex
-	visited := map[*ssa.BasicBlock]bool{}
+	visited := map[visitKey]bool{}
 	var scan func(b *ssa.BasicBlock, upto int, ovs []override)
 	finish := func(base *Ex, ovs []override) *Ex {
 		if len(ovs) == 0 {
@@ -1148,15 +1262,47 @@ func (o *Origins) reaching(root ssa.Value, path []pathElem, at ssa.Instruction, 
 			return
 		}
 		for _, pr := range b.Preds {
-			if visited[pr] || o.predCut(pr, b) {
+			if o.predCut(pr, b) {
 				continue
 			}
-			visited[pr] = true
+			// a block is scanned once per distinct list of partial overwrites collected on the way to it:
+			// two branches that set different fields reach their common ancestor with different lists
+			k := visitKey{pr, ovsSig(len(ovs), func(i int) (string, string) {
+				names := ""
+				for _, pe := range ovs[i].path {
+					names += "." + pe.field
+				}
+				return names, ovs[i].val.String()
+			})}
+			if visited[k] {
+				continue
+			}
+			visited[k] = true
 			scan(pr, len(pr.Instrs), ovs)
 		}
 	}
 	scan(blk, idx, nil)
 	return mkPhi(sources)
+}
+
+type visitKey struct {
+	b   *ssa.BasicBlock
+	sig string
+}
+
+func ovsSig(n int, at func(i int) (string, string)) string {
+	if n == 0 {
+		return ""
+	}
+	var sb strings.Builder
+	for i := 0; i < n; i++ {
+		p, v := at(i)
+		sb.WriteString(p)
+		sb.WriteString("=")
+		sb.WriteString(v)
+		sb.WriteString(";")
+	}
+	return sb.String()
 }
 
 // closureStores lists the values stored by closure fn into the captured variable fv (sub-path path),
